@@ -226,9 +226,9 @@ for _s, _fn, _tree, _file in (("html", "mmd_export_token_html", "mmd_export_toke
 #  every kind -- did not finish: 1 line 600 s, 2 lines 900 s; not registered)
 
 # ---- definition blocks are always retagged before export
-U("c02_definition_block_retagged", ["C02"], "h_defblock", ["C02/defblock.c"], ["writer.c", "char.c"], plain=True, lib=("lib/libc_models.c",), kind="finite",
+U("c02_definition_block_retagged", ["C02", "C01"], "h_defblock", ["C02/defblock.c"], ["writer.c", "char.c"], plain=True, lib=("lib/libc_models.c",), kind="finite",
   drop_bodies=["footnote_new", "definition_extract", "clean_string_from_range"],
   defines=["-DI18N_DISABLED=1"], cbmc_flags=["--unwind", "8", "--unwinding-assertions", "--object-bits", "12"],
   bounds={"definition kinds": "all five", "label": "directly under the block or inside a BLOCK_PARA, with or without a following token"},
-  functions=["process_definition_block"], callees={"footnote_new, definition_extract, clean_string_from_range, strip_leading_whitespace, stack_push": "contract stubs (any answer)", "memmove/strlen": "byte-loop models", "char_is_whitespace": "body"},
+  functions=["process_definition_block", "footnote_free"], callees={"footnote_new, definition_extract, clean_string_from_range, strip_leading_whitespace, stack_push": "contract stubs (any answer)", "memmove/strlen": "byte-loop models", "char_is_whitespace": "body"},
   min_obligations=5, timeout=300, cost=8, assumptions=[NOFAIL])
